@@ -7,6 +7,7 @@ import sys, os
 sys.path.insert(0, "kit"); sys.path.insert(0, "gen")
 from common import *
 import rs2v
+rs2v._load_plugins()
 errs = rs2v.generate(list(rs2v.GENERATORS))
 for n, e in errs:
     print("GEN-ERROR", n, e)
